@@ -1,4 +1,5 @@
 import Nstd.Seq.LemmasStep
+import Nstd.Seq.LemmasNodes
 /-
   Property C03: List, Array and PoolList hold exactly the reference sequence; List::sort leaves an
   ascending permutation.
@@ -150,6 +151,23 @@ theorem lsort_int (s : LState) :
       (by intro a b c h1 h2; simp only [decide_eq_true_eq] at *; omega)
       (by intro a b; simp only [Bool.or_eq_true, decide_eq_true_eq]; omega) s.vals
     exact this.imp (by intro a b h; simpa using h)
+
+/-! ### Nodes of List / PoolList -/
+
+/-- In every reachable state of every List and PoolList variable the items of the chain and of the free
+    list are pairwise distinct, lie inside the allocated blocks and are together exactly the `4 * nblocks`
+    items of the blocks: insertion never hands out an item that is still linked, removal/clear never lose
+    one (this is what makes the chain-of-(id, value) abstraction of the model sound). -/
+theorem nodes_inv (ops : List Op) (c : LState)
+    (hc : c = (run {} ops).l0 ∨ c = (run {} ops).l1 ∨ c = (run {} ops).p0 ∨ c = (run {} ops).p1) :
+    (c.ids ++ c.free).Nodup ∧ (∀ id ∈ c.ids ++ c.free, id < 4 * c.nblocks) ∧
+      (c.ids ++ c.free).length = 4 * c.nblocks := by
+  have h := run_nodes_inv ops {} ⟨LState.linv_init, LState.linv_init, LState.linv_init, LState.linv_init⟩
+  rcases hc with e | e | e | e <;> subst e
+  · exact ⟨h.1.nodup, h.1.bound, h.1.count⟩
+  · exact ⟨h.2.1.nodup, h.2.1.bound, h.2.1.count⟩
+  · exact ⟨h.2.2.1.nodup, h.2.2.1.bound, h.2.2.1.count⟩
+  · exact ⟨h.2.2.2.nodup, h.2.2.2.bound, h.2.2.2.count⟩
 
 /-! ### Array capacity -/
 
